@@ -40,7 +40,7 @@ def list_sort(k):
 
 
 def sort_of(k):
-    if k in ('int', 'ref', 'enum', 'strint'): return I
+    if k in ('int', 'ref', 'enum', 'strint', 'aff'): return I
     if k == 'var': return Var
     if k == 'bool': return B
     if k == 'real': return R
@@ -174,6 +174,7 @@ def fresh(name, sort):
 def fresh_of_kind(name, k):
     if k == 'int' or k == 'enum': return VInt(fresh(name, I))
     if k == 'var': return VLpVar(fresh(name, Var))
+    if k == 'aff': return VAff(fresh(name, I))
     if k == 'bool': return VBool(fresh(name, B))
     if k == 'real': return VReal(fresh(name, R))
     if k == 'ref': return VRef(fresh(name, I))
@@ -215,6 +216,7 @@ def wrap(kind, t):
     """Wrap a z3 term read out of a list of element kind `kind`."""
     if kind in ('int', 'enum'): return VInt(t)
     if kind == 'var': return VLpVar(t)
+    if kind == 'aff': return VAff(t)
     if kind == 'bool': return VBool(t)
     if kind == 'real': return VReal(t)
     if kind == 'ref': return VRef(t)
